@@ -38,7 +38,7 @@ class ConstModel(BaseEstimator, RegressorMixin):
         return numpy.full((X.shape[0],), self.c_)
 
 
-def corr_trace(tid, rng, seed, d, n, draws, frame, minmax, base, identity, const_col, collinear):
+def corr_trace(tid, rng, seed, d, n, draws, frame, minmax, base, identity, const_col, collinear, as_int=False):
     from mlinsights.metrics import correlations as C
     data = numpy.array([[rng.randint(-5, 5) for _ in range(d)] for _ in range(n)], dtype=float)
     if const_col is not None:
@@ -46,7 +46,9 @@ def corr_trace(tid, rng, seed, d, n, draws, frame, minmax, base, identity, const
     if collinear and d >= 2:
         data[:, d - 1] = 2 * data[:, 0] + 1
     labels = ["L%d" % c for c in range(d)]
-    arg = pandas.DataFrame(data.copy(), columns=labels) if frame else data.copy()
+    # the values are integers: the table may come with an integer dtype (the other container keeps float64)
+    typed = data.astype(numpy.int64) if as_int else data.copy()
+    arg = pandas.DataFrame(typed, columns=labels) if frame else typed
     snap = arg.copy()
     splits = []
     orig = C.train_test_split
@@ -92,7 +94,7 @@ def corr_trace(tid, rng, seed, d, n, draws, frame, minmax, base, identity, const
                    mini=enc(mini) if minmax else enc(M), maxi=enc(maxi) if minmax else enc(M),
                    labels_kept=kept, input_untouched=untouched, frame_eq_array=same, learnable=learnable))
     return dict(id=tid, kind="corr", d=d, draws=draws, minmax=minmax, identity_model=identity, ev=ev, site=CSITE,
-                sig="frame=%s minmax=%s const=%s collinear=%s" % (frame, minmax, const_col is not None, collinear),
+                sig="frame=%s minmax=%s const=%s collinear=%s%s" % (frame, minmax, const_col is not None, collinear, " int" if as_int else ""),
                 tr="None", inv="None", outcome=[], r2_equal=True)
 
 
@@ -131,7 +133,11 @@ def dispatch_trace(tid, trn, invn, rng):
         w = numpy.array([1, 2, 1, 3, 1, 2.0])
         a2 = r2_score_comparable(y, p, tr=table[trn], inv_tr=table[invn], sample_weight=w)
         b2 = r2_score(fun["id" if trn == "None" else trn](y), fun["id" if invn == "None" else invn](p), sample_weight=w)
-        r2_equal = bool(a == b and a2 == b2)
+        # multi-output targets: the same identity column by column (r2_score's default average)
+        y2, p2 = numpy.column_stack([y, y[::-1]]), numpy.column_stack([p, p[::-1] * 2])
+        a3 = r2_score_comparable(y2, p2, tr=table[trn], inv_tr=table[invn])
+        b3 = r2_score(fun["id" if trn == "None" else trn](y2), fun["id" if invn == "None" else invn](p2))
+        r2_equal = bool(a == b and a2 == b2 and a3 == b3)
     return dict(id=tid, kind="dispatch", d=1, draws=1, minmax=False, identity_model=False, ev=[], site=DSITE,
                 sig="tr=%s inv_tr=%s" % (trn, invn), tr=trn, inv=invn, outcome=outcome, r2_equal=r2_equal)
 
@@ -164,7 +170,7 @@ def run(ctx):
             n = rng.randint(6, 24)
             ctx.case(("corr", d, draws, frame, minmax, identity, const_col, collinear, seed, n), nontrivial=draws >= 2)
             try:
-                t = corr_trace(tid, rng, seed, d, n, draws, frame, minmax, base, identity, const_col, collinear)
+                t = corr_trace(tid, rng, seed, d, n, draws, frame, minmax, base, identity, const_col, collinear, as_int=rng.random() < 0.3)
             except Exception as e:
                 ctx.violation("CallSucceeds", CSITE, "frame=%s const=%s" % (frame, const_col is not None), repr(e))
                 continue
